@@ -1134,73 +1134,84 @@ async fn c06_layout(seed: u64, scen: u64, layout: Vec<usize>, exhaustive_subsets
                 if is_del {
                     // something to delete is not required: deletes of unknown ids are recorded as tombstones
                 }
-                let before_log = cluster.nodes[me].ctl.log.lock().len();
-                let result = match kind {
-                    0 => h.put(ks, key, vec![me as u8, ai as u8], level).await,
-                    1 => h.del(ks, key, level).await,
-                    2 => h.put_many(ks, keys.iter().map(|k| (*k, vec![1u8, 2, 3])).collect::<Vec<_>>(), level).await,
-                    _ => h.del_many(ks, keys.clone(), level).await,
-                };
-                // the stamp the issuer assigned = stamp of its local write
-                let stamp = cluster.nodes[me].ctl.log.lock().iter().skip(before_log).find(|w| w.id == key).map(|w| w.ts);
-                let selected: BTreeSet<SocketAddr> = chaos.lock().seen.iter().filter(|s| !s.1.contains("BatchPayload")).map(|s| s.0).collect();
-                let layout_need = need(level, &layout, dc_of[me]);
-                let mut holders = 0;
-                for o in &others {
-                    let mut all = true;
+                // the identical call is sometimes issued a second time under the same failures (an
+                // application retrying after an error, or simply writing the same bytes again): it is
+                // judged by the same rules - nothing about the first call may be taken as done
+                let attempts = if rng.gen_bool(0.35) { 2 } else { 1 };
+                let mut desc = Value::Null;
+                for attempt in 0..attempts {
+                    if attempt == 1 {
+                        chaos.lock().seen.clear();
+                        out.count("identical_calls_repeated", 1);
+                    }
+                    let before_log = cluster.nodes[me].ctl.log.lock().len();
+                    let result = match kind {
+                        0 => h.put(ks, key, vec![me as u8, ai as u8], level).await,
+                        1 => h.del(ks, key, level).await,
+                        2 => h.put_many(ks, keys.iter().map(|k| (*k, vec![1u8, 2, 3])).collect::<Vec<_>>(), level).await,
+                        _ => h.del_many(ks, keys.clone(), level).await,
+                    };
+                    // the stamp the issuer assigned = stamp of its local write
+                    let stamp = cluster.nodes[me].ctl.log.lock().iter().skip(before_log).find(|w| w.id == key).map(|w| w.ts);
+                    let selected: BTreeSet<SocketAddr> = chaos.lock().seen.iter().filter(|s| !s.1.contains("BatchPayload")).map(|s| s.0).collect();
+                    let layout_need = need(level, &layout, dc_of[me]);
+                    let mut holders = 0;
+                    for o in &others {
+                        let mut all = true;
+                        for k in &keys {
+                            if !holds(&cluster.nodes[*o], ks, *k, stamp, is_del).await {
+                                all = false;
+                            }
+                        }
+                        if all {
+                            holders += 1;
+                        }
+                    }
+                    let mut local = true;
                     for k in &keys {
-                        if !holds(&cluster.nodes[*o], ks, *k, stamp, is_del).await {
-                            all = false;
+                        if !holds(&cluster.nodes[me], ks, *k, stamp, is_del).await {
+                            local = false;
                         }
                     }
-                    if all {
-                        holders += 1;
+                    // acknowledgements the harness let through
+                    let acks = others
+                        .iter()
+                        .enumerate()
+                        .filter(|(k, o)| selected.contains(&cluster.nodes[**o].addr) && assign[*k] == FailMode::None)
+                        .count();
+                    desc = json!({"layout": layout, "issuer": me, "level": format!("{level:?}"), "kind": (["put", "del", "put_many", "del_many"][kind]),
+                        "failures": assign.iter().map(|a| format!("{a:?}")).collect::<Vec<_>>(), "selected": selected.iter().map(|a| a.to_string()).collect::<Vec<_>>(),
+                        "result": match &result { Ok(()) => "Ok".to_string(), Err(e) => e.to_string() }, "local_write_present": local, "other_nodes_holding_it": holders, "required_others": layout_need, "acks_let_through": acks});
+                    out.count("calls", 1);
+                    out.nontrivial = Some(hash_of(&(&layout, me, format!("{level:?}"), kind, format!("{assign:?}"))));
+                    match &result {
+                        Ok(()) => {
+                            out.count("calls_ok", 1);
+                            if !local {
+                                out.violate(format!("C06:ok-but-local-write-missing:{level:?}"), desc.clone());
+                            }
+                            if holders < layout_need {
+                                out.violate(format!("C06:ok-but-fewer-replicas-than-promised:{level:?}"), desc.clone());
+                            }
+                        },
+                        Err(StoreError::ConsistencyError(ConsistencyError::ConsistencyFailure { responses, required, .. })) => {
+                            out.count("calls_consistency_failure", 1);
+                            if !local {
+                                out.violate(format!("C06:consistency-error-but-local-write-missing:{level:?}"), desc.clone());
+                            }
+                            if *responses != acks {
+                                out.violate(format!("C06:consistency-error-states-wrong-number-of-acknowledgements:{level:?}"), json!({"case": desc, "stated": responses, "required": required}));
+                            }
+                            if *responses >= *required {
+                                out.violate(format!("C06:consistency-error-although-enough-acknowledged:{level:?}"), json!({"case": desc, "stated": responses, "required": required}));
+                            }
+                            pending_progress.push((me, keys[0], is_del, desc.clone()));
+                        },
+                        Err(StoreError::ConsistencyError(ConsistencyError::NotEnoughNodes { .. })) => {
+                            out.count("calls_not_enough_nodes", 1); // no claim here (C15)
+                        },
+                        Err(e) => out.violate("C06:unexpected-error", json!({"case": desc, "error": e.to_string()})),
                     }
-                }
-                let mut local = true;
-                for k in &keys {
-                    if !holds(&cluster.nodes[me], ks, *k, stamp, is_del).await {
-                        local = false;
-                    }
-                }
-                // acknowledgements the harness let through
-                let acks = others
-                    .iter()
-                    .enumerate()
-                    .filter(|(k, o)| selected.contains(&cluster.nodes[**o].addr) && assign[*k] == FailMode::None)
-                    .count();
-                let desc = json!({"layout": layout, "issuer": me, "level": format!("{level:?}"), "kind": (["put", "del", "put_many", "del_many"][kind]),
-                    "failures": assign.iter().map(|a| format!("{a:?}")).collect::<Vec<_>>(), "selected": selected.iter().map(|a| a.to_string()).collect::<Vec<_>>(),
-                    "result": match &result { Ok(()) => "Ok".to_string(), Err(e) => e.to_string() }, "local_write_present": local, "other_nodes_holding_it": holders, "required_others": layout_need, "acks_let_through": acks});
-                out.count("calls", 1);
-                out.nontrivial = Some(hash_of(&(&layout, me, format!("{level:?}"), kind, format!("{assign:?}"))));
-                match &result {
-                    Ok(()) => {
-                        out.count("calls_ok", 1);
-                        if !local {
-                            out.violate(format!("C06:ok-but-local-write-missing:{level:?}"), desc.clone());
-                        }
-                        if holders < layout_need {
-                            out.violate(format!("C06:ok-but-fewer-replicas-than-promised:{level:?}"), desc.clone());
-                        }
-                    },
-                    Err(StoreError::ConsistencyError(ConsistencyError::ConsistencyFailure { responses, required, .. })) => {
-                        out.count("calls_consistency_failure", 1);
-                        if !local {
-                            out.violate(format!("C06:consistency-error-but-local-write-missing:{level:?}"), desc.clone());
-                        }
-                        if *responses != acks {
-                            out.violate(format!("C06:consistency-error-states-wrong-number-of-acknowledgements:{level:?}"), json!({"case": desc, "stated": responses, "required": required}));
-                        }
-                        if *responses >= *required {
-                            out.violate(format!("C06:consistency-error-although-enough-acknowledged:{level:?}"), json!({"case": desc, "stated": responses, "required": required}));
-                        }
-                        pending_progress.push((me, keys[0], is_del, desc.clone()));
-                    },
-                    Err(StoreError::ConsistencyError(ConsistencyError::NotEnoughNodes { .. })) => {
-                        out.count("calls_not_enough_nodes", 1); // no claim here (C15)
-                    },
-                    Err(e) => out.violate("C06:unexpected-error", json!({"case": desc, "error": e.to_string()})),
                 }
                 if ai == 3 && me == 0 {
                     out.sample = Some(desc);
